@@ -41,6 +41,30 @@ CHECKS = {
              'a == b implies equal feeds; for every reachable configuration every value is hashed into a recording Hasher and the whole observation set is judged over all '
              'pairs of values by PropHashAll (the prefix is not assumed, only functional/injective behaviour).',
         design_ref='DESIGN.md section 6 (C05)', note=TB_R),
+    'C06': dict(
+        technique='TLA+ spec (EduceRun.RenderDebug/PropDebug, MC_C06) model-checked with TLC; TLC-enumerated corpus compiled with the real derive; formatter output and field fmt calls validated by TLC against TraceR.tla',
+        text='The specification derives the effective shape (name resolution incl. Enum::Variant, keys, style, bare map/tuple forms) and renders it with an in-spec renderer of core::fmt builder output in compact and pretty mode; TLC checks the builder-protocol machine and that the text is injective on shown fields. Every reachable configuration (t-way bounded) is compiled; every value is formatted with {:?} and {:#?}; text and field fmt calls must equal the specification, and parameter-free types must match a #[derive(Debug)] twin byte for byte.',
+        design_ref='DESIGN.md section 6 (C06)', note=TB_R),
+    'C07': dict(
+        technique='TLA+ spec (EduceRun.ImplCloneStep/PropClone/PropCloneFrom, MC_C07) model-checked with TLC; TLC-enumerated corpus compiled with the real derive; per-field fingerprints and clone calls validated by TLC against TraceR.tla',
+        text='TLC checks that the emitted clone / clone_from machines (same-variant fast path, *self = source.clone() fallback, bitwise plan under Copy) satisfy the declarative field-by-field meaning for all ordered pairs; on the implementation every clone() and clone_from() result is observed as per-field provenance fingerprints (origin, value, own clone / clone_from / method / untouched) and judged by PropClone/PropCloneFrom; Copy is asserted at compile time.',
+        design_ref='DESIGN.md section 6 (C07)', note=TB_R),
+    'C08': dict(
+        technique='TLA+ spec (EduceRun.DefaultPlan/PropDefault, MC_C08) model-checked with TLC; TLC-enumerated corpus compiled with the real derive; fingerprints of T::default()/T::new() validated by TLC against TraceR.tla',
+        text='The specification resolves the designation (type expression > marked/only variant or union field; per-field literal / expression / Default::default()) and steps it as a designation machine; every reachable configuration (marker positions, literal kinds x natural / non-natural field types, spellings, new, type-level expression, stacked bystander attributes) is compiled and T::default(), T::new() are observed as per-field fingerprints plus the count of From<literal> conversions.',
+        design_ref='DESIGN.md section 6 (C08)', note=TB_R),
+    'C09': dict(
+        technique='TLA+ spec (EduceRun.DerefField/DMutField/PropDeref, MC_C09) model-checked with TLC; TLC-enumerated corpus compiled with the real derive; pointer-identity observations validated by TLC against TraceR.tla',
+        text='TLC checks the marker-scan machine against the declarative designation for every placement of the independent Deref and DerefMut markers; on the implementation, pointer identity tells which field &*x and &mut *x refer to (referent for reference fields), and the fingerprint of all fields after a write through &mut *x shows that only the designated field changed.',
+        design_ref='DESIGN.md section 6 (C09)', note=TB_R),
+    'C10': dict(
+        technique='TLA+ spec (EduceRun.IntoField/IntoMode/PropInto, MC_C10) model-checked with TLC; TLC-enumerated corpus compiled with the real derive; provenance of returned values validated by TLC against TraceR.tla',
+        text='TLC checks the per-(target, variant) resolution machine (sole field, marker, unique same-typed field) against the declarative designation; for every reachable configuration x.into() is run for every requested target on every value and the provenance of the returned value (which field; unchanged / From / method) must equal the plan.',
+        design_ref='DESIGN.md section 6 (C10)', note=TB_R),
+    'C20': dict(
+        technique='TLA+ spec (EduceRun.RenderUnion/PropUnion, MC_C20) model-checked with TLC; TLC-enumerated corpus compiled with the real derive; byte-level observations validated by TLC against TraceR.tla',
+        text="The specification models each union impl as a function of the size_of::<Self>() bytes (in-spec renderer of the Debug byte list under the effective name, byte-sequence equality, the slice's own hash feed, bitwise clone); TLC checks the byte-view machine and injectivity of the text; every union shape is compiled and every byte pattern observed. The `unsafe` gating is decided on the expansion channel (C13 corpus).",
+        design_ref='DESIGN.md section 6 (C20)', note=TB_R),
 }
 
 NOT_YET = 'check not built yet (work in progress, see DESIGN.md section 11)'
